@@ -1086,9 +1086,20 @@ nnls_normal_block3(cholmod_sparse *AtA, cholmod_dense *Atb, int verbose,
                                                     ((double*)(Atb->x))[F[i]];
                                 }
 
-                                feasible = walk_descents(AtA_F, Atb_F, x, x_F,
+                                walk_descents(AtA_F, Atb_F, x, x_F,
                                     F, &nF, H1, &nH1, &residual,
                                     &residual_calcs, verbose, c);
+
+                                /*
+                                 * The accepted step was damped and/or
+                                 * projected, so x is not (yet) the least
+                                 * squares solution on the passive set, which
+                                 * is what the KKT test below assumes. Bind
+                                 * whatever hit the boundary and solve again;
+                                 * the loop ends when an unconstrained
+                                 * solution on the passive set is feasible.
+                                 */
+                                feasible = false;
 
                         } /* if (nF_inf == 0) */
 
